@@ -148,14 +148,17 @@ def run(limit, substr, resume):
             rec["result"] = "does-not-compile"
         else:
             detected = []
+            harness = []
             for pid in m["props"]:
                 rc, out = sh(f"./check {pid} quick", cwd=os.path.join(LAB, "verif"))
                 if rc == 1 and "VIOLATION" in out:
                     detected.append(pid)
                     break
                 if rc not in (0, 1):
-                    detected.append(pid + "(harness-error)")
-            if detected:
+                    harness.append(pid)
+            if harness and not detected and all("building" in o for o in [out]):
+                rec["result"] = "does-not-compile"
+            elif detected:
                 rec["result"] = "detected"
                 rec["by"] = detected
             else:
